@@ -135,7 +135,7 @@ def oracle(case, recs, out, stats):
                     with quiet():
                         try:
                             got = impl.cells[int(c)](*args)
-                        except Exception as e:
+                        except BaseException as e:      # noqa: BLE001 (generated formulas raise KeyboardInterrupt too)
                             out.fail("held value %s could not be served after %s: %r" % (x, " ".join(op), e), hist)
                             continue
                     if val_s(got) + v[-1] != v or impl.log:
